@@ -427,7 +427,15 @@ func (j *ChunkJournal) Update(ctx context.Context, behavior dherrors.FatalBehavi
 
 	// if |next| has a different table file set, flush to |j.backing|
 	if !equalSpecs(j.contents.specs, next.specs) {
-		if err := j.flushToBackingManifest(ctx, behavior, next, stats); err != nil {
+		// |next.root| and the chunks it references only become durable with the journal
+		// commit below. Flush the new table file set with the current root, so that a crash
+		// between the two steps cannot leave a manifest naming a root that was never written.
+		// The journal is the source of truth for the root; the backing manifest is trued-up
+		// with it on the next flush or bootstrap.
+		staged := next
+		staged.root = j.contents.root
+		staged.lock = generateLockHash(staged.root, staged.specs, staged.appendix, nil)
+		if err := j.flushToBackingManifest(ctx, behavior, staged, stats); err != nil {
 			return manifestContents{}, err
 		}
 	}
